@@ -10,13 +10,69 @@ def known(meta, msg):
     return None
 
 
+def mon_link_source_versioned(steps, meta):
+    """a pending file that, by the time of the drain, is a symbolic link to a readable regular file still exists as far
+    as a reader is concerned: draining yields a complete version of it (the bytes a reader gets)"""
+    want = meta.get("link_source") if isinstance(meta, dict) else None
+    if not want:
+        return None
+    dumps = [st.dump for st in steps if st.dump is not None]
+    if not dumps:
+        return None
+    last = dumps[-1]
+    rel, text = want
+    vers = [p for p, e in last.items() if p.startswith("/k/store/%s/" % rel) and e[0] == "file"]
+    if not any(wk.content(last[p]) == text for p in vers):
+        pend = [x[2] for x in wk.queue_of(last)]
+        return ("%s was pending, was replaced by a symbolic link to a readable file while the daemon was down, and restart + drain stored no version holding what it reads as "
+                "(versions: %s; still pending: %s; last results: %s)" % (rel, [p.rsplit("/", 1)[1] for p in vers], [p[len(wk.CANON_ROOT):] for p in pend],
+                                                                        [st.result for st in steps if st.op in ("start", "timeout")][-3:]))
+    return None
+
+
+wk.MONITORS["link_source_versioned"] = mon_link_source_versioned
+
+
+def link_source_phase(rep, exe_impl, exe_model):
+    """implementation only (the model's watched tree has no symbolic links): accepted, the daemon is stopped before the
+    drain, the file is moved away and a link left in its place, restart, drain"""
+    import random
+    import world_common as wc
+    rng = random.Random(rep.seed + 3)
+    cases = []
+    for i in range(6 if rep.tier == "quick" else 40):
+        s = wc.Script()
+        wc.setup_world(s, wc.base_cfg(deb=rng.choice([0, 2])))
+        s.start()
+        s.exec(3, wc.X + "/vim")
+        A, B = wc.WATCH + "/inc/a%d.txt" % i, wc.WATCH + "/n"
+        text = "moved to the archive %d" % i
+        s.put(A, "before the move")
+        s.write(3, A)
+        s.put(B, "bystander")
+        s.write(3, B)
+        s.add("stop")
+        s.rm(A)
+        s.put(wc.WATCH + "/archive/a%d.txt" % i, text)
+        s.add("symlink %s %s %d" % (wc.hexs(A), wc.hexs(wc.WATCH + "/archive/a%d.txt" % i), wc.CLOCK0))
+        s.tick(3)
+        s.add("start %s %d %s" % (s.cfgid, wc.CPL, wc.hexs(wc.CFG_PATH)))
+        s.timeout()
+        s.dump()
+        s.timeout()
+        s.dump()
+        cases.append(("ls%d" % i, s.text(), {"link_source": ("inc/a%d.txt" % i, text)}))
+    f, v = wk.run_cases_known(rep, exe_impl, None, cases, ["link_source_versioned", "store_immutable", "queue_form"], known)
+    return f, v, len(cases)
+
+
 def main(rep):
-    wk.standard_main(rep, crash=True, known=known, crash_monitors=["recovery", "post_restart_ok", "store_immutable", "queue_form", "fault_reported", "position_not_ahead"],
+    wk.standard_main(rep, crash=True, known=known, extra=link_source_phase, crash_monitors=["recovery", "post_restart_ok", "store_immutable", "queue_form", "fault_reported", "position_not_ahead"],
                      rule=("every system-call boundary (crash before call k, for every k of the implementation's own call log, and after the last) of the "
                            "operation under test in each scenario family: accepting a write (plain / project), timeout pass over one, duplicated, colliding, "
                            "history (first / with offset / first name taken / formerly history, now ordinary), project (first / second snapshot), deleted, unreadable, directory sources, configuration reload to a "
                            "new queue and journal, a write accepted after a reload that moved the empty queue, loading an existing queue, editor exec; the implementation really dies (_exit) and a new process restarts "
-                           "and drains; crashed and recovered disks compared with the model under the same crash index; every case is non-trivial"))
+                           "and drains; crashed and recovered disks compared with the model under the same crash index; every case is non-trivial; plus (implementation only) a pending file replaced by a symbolic link to a readable file while the daemon is down: restart and drain store what it reads as"))
 
 
 def replay(rep, path):
